@@ -17,7 +17,7 @@ From Coq Require Import ZArith List Bool.
 From V Require Import Base.Int Base.IO.
 From V Require Import Spec.Zone Proofs.TzCommon.
 From V Require Spec.Gregorian.
-From V Require Import Model.TzParser Model.TzRule Model.TzLookup Model.C05 Proofs.C05 Proofs.C05Composite Proofs.C05Glue Proofs.C05Judge Proofs.C05Wide.
+From V Require Import Model.TzParser Model.TzRule Model.TzLookup Model.C05 Proofs.C05 Proofs.C05Composite Proofs.C05Glue Proofs.C05Judge Proofs.C05Wide Proofs.C05Full.
 From V Require Model.Date Model.DateTime.
 Import ListNotations.
 Open Scope Z_scope.
@@ -253,7 +253,9 @@ Print Assumptions C05_zone_off_rule.
    PARTIAL w.r.t. the full classification against instants_of_wall of a zone with a rule: what is
    not proved is that for a wall reading of year y the oracle's candidates are exactly those of
    the year's two transitions (it needs the premise for the neighbouring years plus the window
-   algebra of rule_is_dst); the correspondence run covers that link. *)
+   algebra of rule_is_dst); the correspondence run covers that link.
+   SUPERSEDED by C05_rule_local_total + C05_rule_answer_table (every year, every second, no condition
+   on excepted seconds) and, against the oracle, by C05_rule_zone_every_second. *)
 Theorem C05_rule_local_year_table_partial : forall a y l, alt_ok a -> -2147483650 <= y <= 2147483650 ->
   ut_offset (a_std a) <> ut_offset (a_dst a) ->
   let '(ps, first) := year_table a y in
@@ -262,6 +264,8 @@ Theorem C05_rule_local_year_table_partial : forall a y l, alt_ok a -> -214748365
   alt_find_local_time_type_from_local a y l = Val (Ok (table_answer ps first l)).
 Proof. exact rule_local_as_table. Qed.
 Print Assumptions C05_rule_local_year_table_partial.
+(* PARTIAL in the same sense; SUPERSEDED by C05_rule_zone_every_second (the zone-level statement for
+   every second, with the oracle link) *)
 Theorem C05_from_local_rule_zone_partial : forall z a first y l,
   transitions z = [] -> index (local_time_types z) 0 = Val first -> extra_rule z = Some (Alternate a) ->
   alt_ok a -> -2147483650 <= y <= 2147483650 -> ut_offset (a_std a) <> ut_offset (a_dst a) ->
@@ -271,6 +275,91 @@ Theorem C05_from_local_rule_zone_partial : forall z a first y l,
   find_local_time_type_from_local z y l = Val (Ok (table_answer ps prev l)).
 Proof. exact from_local_rule_zone. Qed.
 Print Assumptions C05_from_local_rule_zone_partial.
+
+(** ** POSIX rules, full forms (Proofs/C05Full.v): EVERY year argument, EVERY wall-clock second.
+    [rule_answer a y l]: the None / Single / Ambiguous answer as a pure function of the wall-clock
+    readings of the two rule transitions of year y (the four-branch if-chain of the Rust, verbatim). *)
+(* for every rule the reader can produce, every year an i32 can hold and every reading the rule code
+   neither traps nor fails, and answers [rule_answer] *)
+Theorem C05_rule_local_total : forall a y l, alt_ok a -> -2147483650 <= y <= 2147483650 ->
+  alt_find_local_time_type_from_local a y l = Val (Ok (rule_answer a y l)).
+Proof. exact rule_local_total. Qed.
+Print Assumptions C05_rule_local_total.
+(* against the transition-table scan over the year's two transitions, on EVERY second (no premise on
+   the year, no excepted seconds): the same answer, except on the first second of a skipped interval
+   at the year's SECOND transition, where the rule code answers None and the scan Single(type before)
+   (the two hemisphere branches "dst_start < dst_end, std > dst" and "dst_end < dst_start, std < dst"
+   of the Rust treat that second differently from the other two; the property excepts it, and None is
+   what the oracle says there).  With C05_table_scan / C05_classification_table this classifies the
+   answer against the two-transition zone [year_table a y] for every year. *)
+Theorem C05_rule_answer_table : forall a y l, ut_offset (a_std a) <> ut_offset (a_dst a) ->
+  let '(ps, first) := year_table a y in
+  ordered (windows (offs ps) (ut_offset first)) = true ->
+  rule_answer a y l = table_answer ps first l \/
+  (rule_answer a y l = MNone /\
+   exists t1 x t2 w, ps = [(t1, x); (t2, w)] /\ ut_offset x < ut_offset w /\ l = t2 + ut_offset x /\
+                     table_answer ps first l = MSingle x).
+Proof. exact rule_answer_table. Qed.
+Print Assumptions C05_rule_answer_table.
+(* against the ORACLE, for EVERY wall-clock second l of a TZ string / rule-only zone (k = the calendar
+   year of l = the year argument the glue passes, C05_glue_timestamp), under the property's premise
+   for the years k-3..k+2 and with the year's two windows disjoint and in order:
+   (a) every instant of S(l) = instants_of_wall is among the candidates -- on the excepted seconds this
+       is only an inclusion (C05_rule_every_second_example: the last second of a repeated interval gets
+       Ambiguous, the first second of a skipped interval may get Single);
+   (b) off the excepted seconds the candidates are exactly S(l), earliest first.
+   Years in which the premise fails: C05_rule_premise_refuted. *)
+Theorem C05_rule_zone_every_second : forall z a first l,
+  let k := utc_year l in let r := conv_rule a in
+  transitions z = [] -> index (local_time_types z) 0 = Val first -> extra_rule z = Some (Alternate a) ->
+  alt_ok a -> -2147483650 <= k <= 2147483650 -> r_std r <> r_dst r -> rule_year_hyps r k ->
+  let '(ps, prev) := year_table a k in
+  ordered (windows (offs ps) (ut_offset prev)) = true ->
+  exists m, find_local_time_type_from_local z k l = Val (Ok m) /\ m = rule_answer a k l /\
+  let rz := mk_szone (ut_offset first) [] (Some (inr r)) in
+  (forall t, In t (instants_of_wall rz l) -> contains m (l - t)) /\
+  (excepted_table (offs ps) (ut_offset prev) l = false -> classified rz l m).
+Proof. exact rule_zone_every_second. Qed.
+Print Assumptions C05_rule_zone_every_second.
+(* roundtrip for a TZ string on EVERY instant t, excepted boundary seconds included: the answer at the
+   wall reading t + off(t) contains off(t) *)
+Theorem C05_roundtrip_rule_zone : forall z a first t,
+  let r := conv_rule a in let o := roff r t in let l := t + o in let k := utc_year l in
+  transitions z = [] -> index (local_time_types z) 0 = Val first -> extra_rule z = Some (Alternate a) ->
+  alt_ok a -> -2147483650 <= k <= 2147483650 -> r_std r <> r_dst r -> rule_year_hyps r k ->
+  ordered (windows (offs (fst (year_table a k))) (ut_offset (snd (year_table a k)))) = true ->
+  exists m, find_local_time_type_from_local z k l = Val (Ok m) /\ contains m o.
+Proof. exact roundtrip_rule_zone. Qed.
+Print Assumptions C05_roundtrip_rule_zone.
+(* inhabited, and the inclusions are strict on excepted seconds: CET-1CEST,M3.5.0,M10.5.0/3 in 2024 *)
+Theorem C05_rule_every_second_example :
+  alt_ok exc_rule /\ rule_year_hyps (conv_rule exc_rule) 2024 /\
+  ordered (windows (offs (fst (year_table exc_rule 2024))) (ut_offset (snd (year_table exc_rule 2024)))) = true /\
+  utc_year 1729998000 = 2024 /\
+  excepted_table (offs (fst (year_table exc_rule 2024))) (ut_offset (snd (year_table exc_rule 2024))) 1729998000 = true /\
+  find_local_time_type_from_local exr_zone 2024 1729998000 = Val (Ok (MAmbiguous ex_cest ex_cet)) /\
+  instants_of_wall exr_rz 1729998000 = [1729994400] /\
+  find_local_time_type_from_local exr_zone 2024 1711850400 = Val (Ok (MSingle ex_cet)) /\
+  instants_of_wall exr_rz 1711850400 = [] /\
+  find_local_time_type_from_local exr_zone 2024 1711854000 = Val (Ok (MSingle ex_cest)) /\
+  instants_of_wall exr_rz 1711854000 = [1711846800].
+Proof. exact exr_facts. Qed.
+Print Assumptions C05_rule_every_second_example.
+(* the premise on the years cannot be dropped: AAA0BBB,J200/0,J1/0:30 falls back across the year
+   boundary; 2023-12-31T23:45:00 occurs twice, the rule code (two transitions of 2023 only) answers
+   Single(BBB); every other hypothesis of C05_rule_zone_every_second holds.  Outside the property's
+   premise (the judge skips: premise_at), hence no finding; the real code gives the same answer
+   (corpus/C05/premise.case) *)
+Theorem C05_rule_premise_refuted :
+  alt_ok prem_rule /\ r_std (conv_rule prem_rule) <> r_dst (conv_rule prem_rule) /\
+  utc_year 1704066300 = 2023 /\
+  ordered (windows (offs (fst (year_table prem_rule 2023))) (ut_offset (snd (year_table prem_rule 2023)))) = true /\
+  excepted_wall prem_rz 1704066300 = false /\
+  premise_year (conv_rule prem_rule) 2023 = false /\ premise_year (conv_rule prem_rule) 2024 = false /\
+  find_local_time_type_from_local prem_zone 2023 1704066300 = Val (Ok (MSingle prem_dst)) /\
+  instants_of_wall prem_rz 1704066300 = [1704062700; 1704066300].
+Proof. exact rule_premise_refuted. Qed.
+Print Assumptions C05_rule_premise_refuted.
 
 (* FULL classification for a TZ string (zone given by a POSIX rule alone): for a wall reading l of
    year k = utc_year l, off the excepted boundary seconds, under the property's premise for the
@@ -390,6 +479,52 @@ Theorem C05_offset_at_composite : forall z ps first a tl pv ol t,
   exists lt, find_local_time_type z t = Val (Ok lt) /\ zone_off cz t = Some (ut_offset lt).
 Proof. exact offset_at_composite. Qed.
 Print Assumptions C05_offset_at_composite.
+
+(* FULL STRENGTH, no continuity assumption: for EVERY instant t the code answers the table's offset
+   strictly before the last table transition tl and the rule's offset from tl on (tl included);
+   against the oracle: this is [zone_off] wherever the standards prescribe an offset, and at t = tl,
+   when table and footer disagree there (zone_off = None), the rule's offset.  (A file with such a
+   disagreement is rejected by the reader: TimeZoneRef::validate, C16.)  Supersedes
+   C05_offset_at_composite, which assumes [roff r tl = ol]. *)
+Theorem C05_offset_at_composite_full : forall z ps first a tl pv ol t,
+  let r := conv_rule a in
+  let cz := mk_szone (ut_offset first) (offs ps) (Some (inr r)) in
+  table_zone z ps first -> leap_seconds z = [] -> extra_rule z = Some (Alternate a) ->
+  increasing (offs ps) = true -> zlen (transitions z) < 4611686018427387904 ->
+  last_window (offs ps) (ut_offset first) = Some (tl, pv, ol) ->
+  (tl <= t -> rule_hyps a t) ->
+  exists lt, find_local_time_type z t = Val (Ok lt) /\
+    ut_offset lt = (if t <? tl then table_off (offs ps) (ut_offset first) t else roff r t) /\
+    (zone_off cz t = Some (ut_offset lt) \/
+     (t = tl /\ zone_off cz t = None /\ ol <> roff r tl)).
+Proof. exact offset_at_composite_full. Qed.
+Print Assumptions C05_offset_at_composite_full.
+(* the same for a table followed by a FIXED footer, with no hypothesis on the footer *)
+Theorem C05_offset_at_composite_fixed : forall z ps first f tl pv ol t,
+  let cz := mk_szone (ut_offset first) (offs ps) (Some (inl (ut_offset f))) in
+  table_zone z ps first -> leap_seconds z = [] -> extra_rule z = Some (Fixed f) ->
+  increasing (offs ps) = true -> zlen (transitions z) < 4611686018427387904 ->
+  last_window (offs ps) (ut_offset first) = Some (tl, pv, ol) ->
+  exists lt, find_local_time_type z t = Val (Ok lt) /\
+    ut_offset lt = (if t <? tl then table_off (offs ps) (ut_offset first) t else ut_offset f) /\
+    (zone_off cz t = Some (ut_offset lt) \/
+     (t = tl /\ zone_off cz t = None /\ ol <> ut_offset f)).
+Proof. exact offset_at_composite_fixed. Qed.
+Print Assumptions C05_offset_at_composite_fixed.
+(* both alternatives are inhabited: the Berlin-like zone at its last transition instant (agreement),
+   and a table whose last transition switches to CEST on 2023-12-31 while the footer says CET *)
+Theorem C05_offset_at_composite_full_example :
+  table_zone disag_zone disag_ps ex_cet /\ leap_seconds disag_zone = [] /\
+  last_window (offs disag_ps) (ut_offset ex_cet) = Some (1704060000, 3600, 7200) /\
+  rule_hyps exc_rule 1704060000 /\
+  zone_off (mk_szone (ut_offset ex_cet) (offs disag_ps) (Some (inr (conv_rule exc_rule)))) 1704060000 = None /\
+  roff (conv_rule exc_rule) 1704060000 = 3600 /\
+  find_local_time_type disag_zone 1704060000 = Val (Ok ex_cet) /\
+  find_local_time_type disag_zone 1704059999 = Val (Ok ex_cet) /\
+  rule_hyps exc_rule 1698541200 /\
+  zone_off exc_cz 1698541200 = Some 3600 /\ find_local_time_type exc_zone 1698541200 = Val (Ok ex_cet).
+Proof. exact disag_facts. Qed.
+Print Assumptions C05_offset_at_composite_full_example.
 
 (* the hypotheses are inhabited: Europe/Berlin's two transitions of 2023 followed by the footer
    CET-1CEST,M3.5.0,M10.5.0/3 *)
